@@ -570,14 +570,22 @@ Proof.
       rewrite IH. reflexivity.
 Qed.
 
-Lemma sm_zsort_perm l l' : Permutation l l' -> zsort l = zsort l'.
+Lemma sm_fold_zins_perm r r' : Permutation r r' -> fold_right zins [] r = fold_right zins [] r'.
 Proof.
-  unfold zsort, sort_by.
   induction 1 as [|x l l' _ IH|x y l|l l' l'' _ IH1 _ IH2]; cbn [fold_right].
   - reflexivity.
   - rewrite IH. reflexivity.
   - apply sm_zins_comm.
   - rewrite IH1. exact IH2.
+Qed.
+
+Lemma sm_zsort_perm l l' : Permutation l l' -> zsort l = zsort l'.
+Proof.
+  intros HP. unfold zsort, sort_by. fold zins.
+  change (fold_left (fun acc x => zins x acc) l [] = fold_left (fun acc x => zins x acc) l' []).
+  rewrite <- !fold_left_rev_right. apply sm_fold_zins_perm.
+  eapply perm_trans; [apply Permutation_sym, Permutation_rev|].
+  eapply perm_trans; [exact HP|apply Permutation_rev].
 Qed.
 
 Lemma sm_py_insert_zins x l : py_insert_lt Z.ltb x l = zins x l.
@@ -586,17 +594,16 @@ Proof.
   rewrite IH. reflexivity.
 Qed.
 
-Lemma sm_py_sorted l : py_sorted_lt Z.ltb l = zsort (rev l).
+Lemma sm_py_sorted l : py_sorted_lt Z.ltb l = zsort l.
 Proof.
-  unfold py_sorted_lt, zsort, sort_by. rewrite <- fold_left_rev_right.
-  generalize (rev l). intros r. induction r as [|x xs IH]; cbn [fold_right]; [reflexivity|].
-  rewrite IH. apply sm_py_insert_zins.
+  unfold py_sorted_lt, zsort, sort_by. fold zins. generalize (@nil Z) as acc.
+  induction l as [|x xs IH]; intros acc; cbn [fold_left]; [reflexivity|].
+  rewrite sm_py_insert_zins. apply IH.
 Qed.
 
 Lemma sm_py_sorted_perm l l' : Permutation l l' -> py_sorted_lt Z.ltb l = zsort l'.
 Proof.
-  intros H. rewrite sm_py_sorted. apply sm_zsort_perm.
-  eapply perm_trans; [apply Permutation_sym, Permutation_rev | exact H].
+  intros H. rewrite sm_py_sorted. apply sm_zsort_perm. exact H.
 Qed.
 
 Lemma sm_median l l' : l <> [] -> Permutation l l' ->
